@@ -45,6 +45,7 @@ func checkC15(c *Ctx) {
 		c16Timestamp(c, p, m)
 		attrCopiesWhole(c, p, "R15.3")
 		c15ThruList(c, p, m)
+		c15HandlerModes(c, p, m)
 		c03Routing(c, p, m)
 		c09Pooled(c, p, m, "R09.1", feasibleModes)
 		c08Stores(c, p, m)
@@ -684,6 +685,35 @@ func c15Derived(c *Ctx, p *Prog, m *Model) {
 			probs = append(probs, "the derived handler's Logger is never set")
 		}
 		r.Check(okLogger && okFields && len(probs) == 0, "R15.4", "handler4LogSlog.withFields", p.FuncPos(wf), "same logger; fields = fresh copy of the receiver's + the given ones", strings.Join(probs, "; "))
+		// deriving a handler never edits an attribute object: groups and attributes reachable from a handler are shared
+		// with its parent and its siblings (a clone copies pointers), so Add / SetValue on one of them shows in the
+		// records of the other handlers and races with their logging
+		{
+			var muts []string
+			roots := []*ssa.Function{wf}
+			for _, n := range []string{"WithAttrs", "WithGroup"} {
+				if f := p.Method(p.Slog, "handler4LogSlog", n); f != nil {
+					roots = append(roots, f)
+				}
+			}
+			for g := range staticReach(roots, func(f *ssa.Function) bool {
+				return f.Pkg != p.Slog || (f.Signature.Recv() != nil && typeName(f.Signature.Recv().Type()) != "handler4LogSlog")
+			}) {
+				for _, cs := range callsIn(g) {
+					name := ""
+					if cal := calleeOf(cs); cal != nil && cal.Pkg == p.Slog && cal.Signature.Recv() != nil {
+						name = nm(cal)
+					} else if cs.Common().IsInvoke() {
+						name = nm(cs.Common().Method)
+					}
+					if name == "Add" || name == "SetValue" {
+						muts = append(muts, shortName(g)+" calls "+name+" at "+p.Pos(instrPos(cs)))
+					}
+				}
+			}
+			sort.Strings(muts)
+			r.Check(len(muts) == 0, "R15.4", "handler4LogSlog:derive-without-mutation", p.FuncPos(wf), "deriving a handler edits no attribute object", "deriving a handler edits a shared attribute object ("+strings.Join(muts, "; ")+"): the records of the parent and of sibling handlers change, and the edit races with their logging")
+		}
 		for _, n := range []string{"WithAttrs", "WithGroup"} {
 			fn := p.Method(p.Slog, "handler4LogSlog", n)
 			ok := fn != nil && len(callsTo(fn, wf)) > 0
@@ -1090,5 +1120,140 @@ func c15ThruList(c *Ctx, p *Prog, m *Model) {
 	}
 	if n == 0 {
 		r.Unk("R15.3", "WriteThru:list", p.FuncPos(wt), "WriteThru hands no attribute list to the printer")
+	}
+}
+
+// c15HandlerModes (R15.2): the format of a handler follows its options for every combination of JSON and NoColor.
+// NewSlogHandler is walked for each of the four combinations (other conditions explored both ways); the mode setter
+// calls met on a path are applied to an unknown starting state with the setters' documented effects
+// (SetColorMode(b): colour = b, JSON off; SetJSONMode(b): JSON = b, colour off when b); every path must end in the
+// state the options name: JSON -> json, else NoColor -> logfmt, else colored.
+func c15HandlerModes(c *Ctx, p *Prog, m *Model) {
+	r := c.R
+	fn := p.Func(p.Slog, "NewSlogHandler")
+	if fn == nil {
+		r.Unk("R15.2", "NewSlogHandler:modes", "-", "NewSlogHandler not found")
+		return
+	}
+	type st struct{ json, color int } // 0 unknown, 1 false, 2 true
+	var evalBool func(v ssa.Value, js, nc bool) (bool, bool)
+	evalBool = func(v ssa.Value, js, nc bool) (bool, bool) {
+		v = strip(v)
+		if k, ok := constBool(v); ok {
+			return k, true
+		}
+		if u, ok := v.(*ssa.UnOp); ok && u.Op == token.NOT {
+			if b, ok := evalBool(u.X, js, nc); ok {
+				return !b, true
+			}
+			return false, false
+		}
+		if _, ok := isFieldLoadOf(v, "HandlerOptions", "JSON"); ok {
+			return js, true
+		}
+		if _, ok := isFieldLoadOf(v, "HandlerOptions", "NoColor"); ok {
+			return nc, true
+		}
+		return false, false
+	}
+	argOf := func(cs ssa.CallInstruction) (bool, bool, bool) { // value, known, isModeCall
+		return false, false, false
+	}
+	_ = argOf
+	for _, combo := range [][2]bool{{false, false}, {false, true}, {true, false}, {true, true}} {
+		js, nc := combo[0], combo[1]
+		want := st{1, 2}
+		if js {
+			want = st{2, 1}
+		} else if nc {
+			want = st{1, 1}
+		}
+		var bad []string
+		nPaths := 0
+		var walk func(b *ssa.BasicBlock, s st, seen map[*ssa.BasicBlock]int)
+		walk = func(b *ssa.BasicBlock, s st, seen map[*ssa.BasicBlock]int) {
+			if seen[b] > 1 || nPaths > 256 {
+				return
+			}
+			seen[b]++
+			defer func() { seen[b]-- }()
+			for _, in := range b.Instrs {
+				cs, ok := in.(ssa.CallInstruction)
+				if !ok {
+					continue
+				}
+				name := invokeName(cs)
+				if cal := calleeOf(cs); cal != nil {
+					name = nm(cal)
+				}
+				if name != "SetColorMode" && name != "SetJSONMode" {
+					continue
+				}
+				args := cs.Common().Args
+				val, known := true, true // no argument means true
+				if len(args) > 0 {
+					last := args[len(args)-1]
+					if sl, isSl := last.(*ssa.Slice); isSl {
+						if al, isAl := sl.X.(*ssa.Alloc); isAl {
+							for _, ref := range *al.Referrers() {
+								if ia, isIA := ref.(*ssa.IndexAddr); isIA {
+									for _, r2 := range *ia.Referrers() {
+										if stx, isSt := r2.(*ssa.Store); isSt {
+											val, known = evalBool(stx.Val, js, nc)
+										}
+									}
+								}
+							}
+						}
+					} else if !isNilConst(last) {
+						known = false
+					}
+				}
+				if !known {
+					s = st{0, 0}
+					continue
+				}
+				tf := func(b bool) int {
+					if b {
+						return 2
+					}
+					return 1
+				}
+				if name == "SetColorMode" {
+					s = st{1, tf(val)}
+				} else {
+					s.json = tf(val)
+					if val {
+						s.color = 1
+					}
+				}
+			}
+			switch t := b.Instrs[len(b.Instrs)-1].(type) {
+			case *ssa.Return:
+				nPaths++
+				if s != want {
+					bad = append(bad, fmt.Sprintf("json=%d colour=%d (0 unknown, 1 off, 2 on) at %s", s.json, s.color, p.Pos(instrPos(t))))
+				}
+			case *ssa.If:
+				if v, ok := evalBool(t.Cond, js, nc); ok {
+					if v {
+						walk(b.Succs[0], s, seen)
+					} else {
+						walk(b.Succs[1], s, seen)
+					}
+				} else {
+					walk(b.Succs[0], s, seen)
+					walk(b.Succs[1], s, seen)
+				}
+			default:
+				for _, nx := range b.Succs {
+					walk(nx, s, seen)
+				}
+			}
+		}
+		walk(fn.Blocks[0], st{0, 0}, map[*ssa.BasicBlock]int{})
+		key := fmt.Sprintf("NewSlogHandler:modes[JSON=%v NoColor=%v]", js, nc)
+		r.Check(nPaths > 0 && len(bad) == 0, "R15.2", key, p.FuncPos(fn), fmt.Sprintf("every path ends in json=%d colour=%d", want.json, want.color),
+			fmt.Sprintf("with these options the handler's logger does not end in the format they name (want json=%d colour=%d, got %s): the mode setters are skipped or applied in an order in which one undoes the other, or the result depends on what the logger was set to before", want.json, want.color, strings.Join(dedupStr(bad), "; ")))
 	}
 }
